@@ -301,6 +301,16 @@ func c01GenValue(t *rapid.T) c01Case {
 		v = jgenValue(t, o, 0, "v")
 	}
 	v = jgenWrap(t, v, "wrap")
+	if rapid.IntRange(0, 3).Draw(t, "envelope") == 0 {
+		// the value sits under a member that events carry (the canonical-JSON rules know no member names:
+		// a number under `unsigned` is judged like a number anywhere else)
+		name := rapid.SampledFrom([]string{"unsigned", "unsigned", "signatures", "content", "hashes", "prev_events", "age_ts", "depth", "origin_server_ts"}).Draw(t, "envelopeName")
+		if rapid.Bool().Draw(t, "envelopeAlone") {
+			v = jobj(name, v)
+		} else {
+			v = jobj("type", jstr("m.x"), name, v, "room_id", jstr("!r:x"))
+		}
+	}
 	c := c01Case{Text: vfBytes(jspell(t, v, "p1"))}
 	switch rapid.IntRange(0, 3).Draw(t, "altKind") {
 	case 0:
